@@ -1,18 +1,13 @@
-import MJ.Proofs.LexerBasic
+import MJ.Proofs.LexerTok
 /-! Well-formed delimiter sets and the scanning lemmas for the fixed tag vocabulary: start marker
 search (`findLL`), tag interiors (`scanTag`), comments (`findSub`), raw blocks (`skipBasicTag`,
 `findEndraw`). -/
 namespace MJ.Lexer
 
 structure Good (d : Delims) : Prop where
-  ls : d.ls = []
-  lc : d.lc = []
-  vs : startOk d.vs = true
-  bs : startOk d.bs = true
-  cs : startOk d.cs = true
-  vb : d.vs ≠ d.bs
-  vc : d.vs ≠ d.cs
-  bc : d.bs ≠ d.cs
+  starts : ∀ mp ∈ startPats d, startOk mp.2 = true
+  lastNl : ∀ mp ∈ startPats d, endNotNl mp.2 = true
+  nodup : ((startPats d).map (·.2)).Nodup
   ve : headOk d.ve = true
   be : headOk d.be = true
   ce : headOk d.ce = true
@@ -20,112 +15,27 @@ structure Good (d : Delims) : Prop where
   lbe : lastOk d.be = true
   lce : lastOk d.ce = true
 
+theorem nodup_of_nodupB (l : List (List Char)) (h : nodupB l = true) : l.Nodup := by
+  induction l with
+  | nil => exact List.nodup_nil
+  | cons p r ih =>
+    simp only [nodupB, Bool.and_eq_true, Bool.not_eq_true'] at h
+    refine List.nodup_cons.2 ⟨?_, ih h.2⟩
+    intro hm
+    have := List.contains_iff_mem.2 hm
+    rw [this] at h
+    exact absurd h.1 (by simp)
+
 theorem good_of_goodDelims {d : Delims} (h : goodDelims d = true) : Good d := by
-  simp only [goodDelims, Bool.and_eq_true, List.isEmpty_iff, bne_iff_ne, ne_eq] at h
-  obtain ⟨⟨⟨⟨⟨⟨⟨⟨⟨⟨⟨⟨⟨h1, h2⟩, h3⟩, h4⟩, h5⟩, h6⟩, h7⟩, h8⟩, h9⟩, h10⟩, h11⟩, h12⟩, h13⟩, h14⟩ := h
-  exact ⟨h1, h2, h3, h4, h5, h6, h7, h8, h9, h10, h11, h12, h13, h14⟩
+  simp only [goodDelims, Bool.and_eq_true, List.all_eq_true] at h
+  obtain ⟨⟨⟨⟨⟨⟨⟨h1, h2⟩, h3⟩, h4⟩, h5⟩, h6⟩, h7⟩, h8⟩ := h
+  exact ⟨fun mp hmp => (h1 mp hmp).1, fun mp hmp => (h1 mp hmp).2, nodup_of_nodupB _ h2, h3, h4, h5, h6, h7, h8⟩
 
 theorem good_default : Good defaultDelims := good_of_goodDelims (by decide)
 
-/-! ### character facts -/
-
-theorem asciiWs_cases {c : Char} (h : isAsciiWs c = true) :
-    c = ' ' ∨ c = '\t' ∨ c = '\n' ∨ c = '\x0c' ∨ c = '\r' := by
-  simpa [isAsciiWs, or_assoc] using h
-
-theorem asciiWs_not_identCont {c : Char} (h : isAsciiWs c = true) : isIdentCont c = false := by
-  rcases asciiWs_cases h with rfl | rfl | rfl | rfl | rfl <;> decide
-
-theorem identStart_identCont {c : Char} (h : isIdentStart c = true) : isIdentCont c = true := by
-  simp [isIdentCont, h]
-
-theorem identCont_not_asciiWs {c : Char} (h : isIdentCont c = true) : isAsciiWs c = false := by
-  cases hw : isAsciiWs c with
-  | false => rfl
-  | true => rw [asciiWs_not_identCont hw] at h; cases h
-
-theorem headOk_cons {e : List Char} (h : headOk e = true) :
-    ∃ c r, e = c :: r ∧ isAsciiWs c = false ∧ isIdentCont c = false ∧ c ≠ '-' ∧ c ≠ '+' := by
-  cases e with
-  | nil => simp [headOk] at h
-  | cons c r =>
-    simp only [headOk, Bool.and_eq_true, Bool.not_eq_true', bne_iff_ne, ne_eq] at h
-    exact ⟨c, r, rfl, h.1.1.1, h.1.1.2, h.1.2, h.2⟩
-
-/-! ### `scanTag` -/
-
-theorem bump_some (k n : Nat) (w : Ws) : bump k (some (n, w)) = some (n + k, w) := rfl
-
-theorem scanTag_ws (e : List Char) (b : Bool) {c : Char} (r : List Char) (hc : isAsciiWs c = true) :
-    scanTag e b (c :: r) = bump 1 (scanTag e false r) := by
-  simp [scanTag, asciiWs_not_identCont hc, hc]
-
-theorem scanTag_ident {e : List Char} (he : headOk e = true) (b : Bool) {c : Char} (r : List Char)
-    (hc : isIdentStart c = true) : scanTag e b (c :: r) = bump 1 (scanTag e true r) := by
-  obtain ⟨h, t, rfl, _, h2, _, _⟩ := headOk_cons he
-  have hcc := identStart_identCont hc
-  cases b with
-  | true => simp [scanTag, hcc]
-  | false =>
-    have hne : h ≠ c := by rintro rfl; rw [hcc] at h2; cases h2
-    have hm : c ≠ '-' := by rintro rfl; revert hc; decide
-    have hp : c ≠ '+' := by rintro rfl; revert hc; decide
-    simp [scanTag, identCont_not_asciiWs hcc, hm, hp, startsWith_cons_ne _ _ hne, hc]
-
-theorem scanTag_end {e : List Char} (he : headOk e = true) (b : Bool) (m : Mark) (x : List Char) :
-    scanTag e b (m.src ++ (e ++ x)) = some (m.src.length + e.length, m.ws) := by
-  obtain ⟨h, t, rfl, h1, h2, h3, h4⟩ := headOk_cons he
-  have hs : startsWith (h :: t) (h :: t ++ x) = true := startsWith_append_self _ _
-  have hs' : startsWith (h :: t) (h :: (t ++ x)) = true := by simpa using hs
-  have i1 : isIdentCont '-' = false := by decide
-  have i2 : isIdentCont '+' = false := by decide
-  cases m with
-  | none => simp [Mark.src, Mark.ws, scanTag, h1, h2, h3, h4, hs']
-  | minus =>
-    simp only [Mark.src, Mark.ws, List.cons_append, List.nil_append, scanTag, i1, Bool.and_false]
-    simp [isAsciiWs, hs']
-  | plus =>
-    simp only [Mark.src, Mark.ws, List.cons_append, List.nil_append, scanTag, i2, Bool.and_false]
-    simp [isAsciiWs, hs']
-
-theorem scanTag_varBody {e : List Char} (he : headOk e = true) (tight : Bool) (m : Mark) (x : List Char) :
-    scanTag e false (varBody tight ++ (m.src ++ (e ++ x))) =
-      some ((varBody tight).length + m.src.length + e.length, m.ws) := by
-  cases tight with
-  | false =>
-    simp only [varBody, pad, Bool.false_eq_true, if_false, List.cons_append, List.nil_append]
-    rw [scanTag_ws _ _ _ (by decide), scanTag_ident he _ _ (by decide), scanTag_ws _ _ _ (by decide),
-      scanTag_end he false m x]
-    simp [bump]; omega
-  | true =>
-    simp only [varBody, pad, if_true, List.cons_append, List.nil_append]
-    rw [scanTag_ident he _ _ (by decide), scanTag_end he true m x]
-    simp [bump]; omega
-
-theorem scanTag_word {e : List Char} (he : headOk e = true) (w : Word) (tight : Bool) (m : Mark)
-    (x : List Char) :
-    scanTag e false (w.src tight ++ (m.src ++ (e ++ x))) =
-      some ((w.src tight).length + m.src.length + e.length, m.ws) := by
-  cases w <;> cases tight
-  · simp only [Word.src, Word.core, pad, Bool.false_eq_true, if_false, List.cons_append, List.nil_append]
-    rw [scanTag_ws _ _ _ (by decide), scanTag_ident he _ _ (by decide), scanTag_ident he _ _ (by decide),
-      scanTag_ws _ _ _ (by decide), scanTag_ident he _ _ (by decide), scanTag_ws _ _ _ (by decide),
-      scanTag_end he false m x]
-    simp [bump]; omega
-  · simp only [Word.src, Word.core, pad, if_true, List.cons_append, List.nil_append, List.append_nil]
-    rw [scanTag_ident he _ _ (by decide), scanTag_ident he _ _ (by decide),
-      scanTag_ws _ _ _ (by decide), scanTag_ident he _ _ (by decide), scanTag_end he true m x]
-    simp [bump]; omega
-  · simp only [Word.src, Word.core, pad, Bool.false_eq_true, if_false, List.cons_append, List.nil_append]
-    rw [scanTag_ws _ _ _ (by decide), scanTag_ident he _ _ (by decide), scanTag_ident he _ _ (by decide),
-      scanTag_ident he _ _ (by decide), scanTag_ident he _ _ (by decide), scanTag_ident he _ _ (by decide),
-      scanTag_ws _ _ _ (by decide), scanTag_end he false m x]
-    simp [bump]; omega
-  · simp only [Word.src, Word.core, pad, if_true, List.cons_append, List.nil_append, List.append_nil]
-    rw [scanTag_ident he _ _ (by decide), scanTag_ident he _ _ (by decide),
-      scanTag_ident he _ _ (by decide), scanTag_ident he _ _ (by decide), scanTag_ident he _ _ (by decide),
-      scanTag_end he true m x]
-    simp [bump]; omega
+theorem Good.vs {d : Delims} (g : Good d) : startOk d.vs = true := g.starts (.var, d.vs) (by simp [startPats])
+theorem Good.bs {d : Delims} (g : Good d) : startOk d.bs = true := g.starts (.block, d.bs) (by simp [startPats])
+theorem Good.cs {d : Delims} (g : Good d) : startOk d.cs = true := g.starts (.comment, d.cs) (by simp [startPats])
 
 /-! ### comments -/
 
